@@ -385,6 +385,43 @@ V("C02", "twin-positional-args", "mdtraj/formats/netcdf.py", """        xyz, tim
             atom_indices=atom_indices,
         )""", """        xyz, time, cell_lengths, cell_angles = self.read(n_frames, stride, atom_indices)""", None)
 
+# NetCDF layout / unit-tagged input / CONECT numbering / keyword attributes / path classes / ARC reader, all by evaluation
+V("C01", "nc-coordinates-double", "mdtraj/formats/netcdf.py", """                "coordinates",
+                "f",""", """                "coordinates",
+                "d",""", "C01-R3", "NetCDFTrajectoryFile._initialize_headers")
+V("C01", "nc-time-per-atom-dimension", "mdtraj/formats/netcdf.py", 'frame_times = self._handle.createVariable("time", "f", ("frame",))', 'frame_times = self._handle.createVariable("time", "f", ("atom",))', "C01-R3", "NetCDFTrajectoryFile._initialize_headers")
+V("C01", "ncrst-cell-lengths-float", "mdtraj/formats/amberrst.py", 'v = ncfile.createVariable("cell_lengths", "d", ("cell_spatial",))', 'v = ncfile.createVariable("cell_lengths", "f", ("cell_spatial",))', "C01-R3", "AmberNetCDFRestartFile._initialize_headers")
+V("C01", "ncrst-angles-in-radian-label", "mdtraj/formats/amberrst.py", 'v.units = "degree"', 'v.units = "radian"', "C01-R3", "AmberNetCDFRestartFile._initialize_headers")
+V("C01", "nc-label-dimension-4", "mdtraj/formats/netcdf.py", 'self._handle.createDimension("label", 5)', 'self._handle.createDimension("label", 4)', "C01-R3", "NetCDFTrajectoryFile._initialize_headers")
+V("C01", "twin-ncrst-type-by-dtype-name", "mdtraj/formats/amberrst.py", 'v = ncfile.createVariable("time", "d", ("time",))', 'v = ncfile.createVariable("time", "f8", ("time",))', None)
+V("C01", "twin-nc-setattr-as-attribute", "mdtraj/formats/netcdf.py", 'setattr(frame_times, "units", "picosecond")', 'frame_times.units = "picosecond"', None)
+V("C01", "nc-tagged-time-to-nanoseconds", "mdtraj/formats/netcdf.py", 'time = in_units_of(time, None, "picoseconds")', 'time = in_units_of(time, None, "nanoseconds")', "C01-R2", "NetCDFTrajectoryFile.write")
+V("C01", "h5-tagged-velocities-angstrom", "mdtraj/formats/hdf5.py", 'velocities = in_units_of(velocities, None, "nanometers/picosecond")', 'velocities = in_units_of(velocities, None, "angstroms/picosecond")', "C01-R2", "HDF5TrajectoryFile.write")
+V("C04", "conect-ter-counted-for-chains-with-atoms", "mdtraj/formats/pdb/pdbfile.py", "                if self.ter and chain.n_residues > 0:", "                if self.ter and chain.n_atoms > 0:", "C04-R7", "PDBTrajectoryFile._write_footer")
+V("C04", "conect-three-partners-per-line-again", "mdtraj/formats/pdb/pdbfile.py", '"CONECT%5d%5d%5d%5d%5d" % (index1, bonded[0], bonded[1], bonded[2], bonded[3]),', '"CONECT%5d%5d%5d%5d" % (index1, bonded[0], bonded[1], bonded[2]),', "C04-R7", "PDBTrajectoryFile._write_footer")
+V("C04", "conect-counter-from-zero", "mdtraj/formats/pdb/pdbfile.py", "            nextAtomIndex = 1\n", "            nextAtomIndex = 0\n", "C04-R7", "PDBTrajectoryFile._write_footer")
+V("C04", "conect-one-direction-only", "mdtraj/formats/pdb/pdbfile.py", "                atomBonds[index1].append(index2)\n                atomBonds[index2].append(index1)", "                atomBonds[index1].append(index2)", "C04-R7", "PDBTrajectoryFile._write_footer")
+V("C04", "twin-conect-del-slice-by-rebinding", "mdtraj/formats/pdb/pdbfile.py", "                    del bonded[:4]", "                    bonded = bonded[4:]", None)
+V("C12", "n-bonds-counts-first-ends-only", "mdtraj/core/topology.py", "        return ilen(bond for bond in self.residue.chain.topology.bonds if self in bond)", "        return ilen(bond for bond in self.residue.chain.topology.bonds if self is bond[0])", "C12-R1", "SelectionKeyword")
+V("C12", "twin-n-bonds-as-sum", "mdtraj/core/topology.py", "        return ilen(bond for bond in self.residue.chain.topology.bonds if self in bond)", "        return sum(1 for bond in self.residue.chain.topology.bonds if self in bond)", None)
+V("C20", "lammpstrj-open-expanded-path", "mdtraj/formats/lammpstrj.py", '            self._fh = open(filename, "w")', '            self._fh = open(os.path.expanduser(filename), "w")', "C20-R1", "LAMMPSTrajectoryFile.__init__")
+V("C20", "twin-lammpstrj-open-fspath", "mdtraj/formats/lammpstrj.py", '            self._fh = open(filename, "w")', '            self._fh = open(os.fspath(filename), "w")', None)
+V("C02", "arc-skip-loop-outside-try-again", "mdtraj/formats/arc.py", """            try:
+                for j in range(stride - 1):
+                    # throw away these frames
+                    self._read()
+            except _EOF:
+                # the file ends inside the stride: the frame above was the last one
+                break
+""", """            for j in range(stride - 1):
+                # throw away these frames
+                self._read()
+""", "C02-R8", "ArcTrajectoryFile.read")
+V("C02", "arc-time-ignores-position", "mdtraj/formats/arc.py", "        time = (stride * np.arange(len(xyz))) + initial", "        time = stride * np.arange(len(xyz))", "C02-R8", "ArcTrajectoryFile.read")
+V("C02", "arc-cell-angles-from-shifted-columns", "mdtraj/formats/arc.py", "                    [float(s[3]), float(s[4]), float(s[5])],", "                    [float(s[2]), float(s[3]), float(s[4])],", "C02-R8", "ArcTrajectoryFile.read")
+V("C02", "arc-last-atom-dropped", "mdtraj/formats/arc.py", "        # Now do the last atom\n        atom_names[i] = s[1]\n        bond_partners[i] = [int(x) for x in s[6:]]\n        coords[i, :] = [float(s[pos]) for pos in [2, 3, 4]]", "        # Now do the last atom\n        atom_names[i] = s[1]\n        bond_partners[i] = [int(x) for x in s[6:]]", "C02-R8", "ArcTrajectoryFile.read")
+V("C02", "twin-arc-for-loop-over-atoms", "mdtraj/formats/arc.py", "            coords[i, :] = [float(s[pos]) for pos in [2, 3, 4]]\n            i += 1", "            coords[i, :] = [float(s[2]), float(s[3]), float(s[4])]\n            i += 1", None)
+
 # twins learnt from the independently seeded changes (the refactoring without the bug must stay silent)
 V("C04", "twin-hdf5-getter-uses-dict-get", "mdtraj/formats/hdf5.py",
   """                try:
